@@ -135,6 +135,10 @@ pub struct Config {
     /// oracle keeps judging.
     #[serde(default)]
     pub adopt_unexpected_upgrade: bool,
+    /// C01 runs: the adopted handle re-opens the model (an owner exists again), so that what is
+    /// written through it is expected to reach the subscribers.
+    #[serde(default)]
+    pub reopen_on_adopt: bool,
     /// bit k set: the k-th (mod 8) subscriber created is polled with one and the same waker every
     /// time instead of a fresh one per poll
     #[serde(default)]
